@@ -47,4 +47,20 @@ CHECKS = {
             {"harness": "c08_timers", "mode": "wheel", "flavour": "asan", "runs": {"quick": 15000, "thorough": 800000}, "wall": {"quick": 25, "thorough": 600}, "seed_off": 3},
         ],
     },
+    "C01": {
+        "level": "exploration",
+        "rule": ("each run = one seeded world (socket buffers 1 B..256 KiB, MSS 1..64 KiB, latency/jitter, short reads, injected short writes, EINTR, truncated epoll "
+                 "batches, immediate connects; ET or LT, batching on/off, ioReadChunk 1..64 KiB, maxWriteQueue 4..1024; iora as server or client; plain or TLS) with "
+                 "1-4 sender threads (payload sizes around 1, MSS, buffer size, several buffers), a scripted raw/OpenSSL peer writing its own keyed stream, reader "
+                 "stalls, and an ending drawn from complete-then-close / immediate close / peer RST or close after k bytes / stop(); under one seeded schedule; "
+                 "non-trivial = at least one short write, EAGAIN, short read or context switch; distinct = distinct (mode, interleaving hash, abstract state hash)"),
+        "real": ["iora::network::Transport + Transport::Impl", "iora::network::TcpEngine", "EventBatchProcessor", "iora::core::TimerService", "OpenSSL 3 (both ends in TLS mode)"],
+        "stub": COMMON_STUB + ["kernel TCP sockets, epoll, eventfd, timerfd (simrt/net.cpp)", "the remote peer (scripted blocking socket / OpenSSL client or server)"],
+        "assumptions": ["sends start at the announce callback (accept / connect / TLS handshake completion)", "default close-on-backpressure policy",
+                        "the simulated kernel produces only behaviour a Linux kernel can produce (short writes only with a following writability edge)"],
+        "jobs": [
+            {"harness": "c01_tcp", "mode": "plain", "flavour": "asan", "runs": {"quick": 4500, "thorough": 400000}, "wall": {"quick": 40, "thorough": 1500}, "seed_off": 1},
+            {"harness": "c01_tcp", "mode": "tls", "flavour": "asan", "runs": {"quick": 1500, "thorough": 120000}, "wall": {"quick": 30, "thorough": 1200}, "seed_off": 2},
+        ],
+    },
 }
